@@ -1,6 +1,6 @@
 (* Model for C10: a nested expression fragment with the Snowflake-specific functions fakesnow rewrites,
    the rewrite itself (transforms.py: to_decimal 1161, try_to_decimal 1176, _get_to_number_args 1070,
-   dateadd_date_cast 262, dateadd_string_literal_timestamp_cast 300, datediff_string_literal_timestamp_cast 338,
+   dateadd_quarter, dateadd_date_cast 262, dateadd_string_literal_timestamp_cast 300, datediff_string_literal_timestamp_cast 338,
    to_date 1069 and sqlglot's own DATEADD/DATEDIFF/TO_DECIMAL generation for DuckDB, macros.py equal_null),
    Snowflake's documented meaning (sem_sf) and DuckDB's meaning of the target nodes (sem_duck).
    Decimals are (unscaled, scale); dates are day numbers, timestamps microseconds since the epoch; a text
@@ -273,7 +273,8 @@ Definition is_text_lit (e : expr) : bool := match e with ELit (VDateText _) | EL
 (* TO_DATE('literal') is a CAST already when sqlglot has parsed it; TO_DATE(<expression>) becomes one only at generation time,
    after dateadd_date_cast has looked *)
 Definition is_cast_date (e : expr) : bool := match e with ECastDate _ => true | EToDate a => is_text_lit a | _ => false end.
-Definition date_unit (u : unit_) : bool := match u with UDay | UWeek | UMonth | UYear => true | _ => false end.
+(* a quarter has become MONTH by the time dateadd_date_cast looks at the unit *)
+Definition date_unit (u : unit_) : bool := match u with UDay | UWeek | UMonth | UQuarter | UYear => true | _ => false end.
 
 Fixpoint rewrite (e : expr) : expr :=
   match e with
@@ -291,7 +292,7 @@ Fixpoint rewrite (e : expr) : expr :=
       let d' := if is_text_lit d then ECastTs (rewrite d) else rewrite d in      (* dateadd_string_literal_timestamp_cast *)
       let body := match u with
                   | UWeek => EPlusInterval UDay 7 (rewrite n) d'
-                  | UQuarter => EPlusInterval UDay 90 (rewrite n) d'          (* sqlglot: 90 days *)
+                  | UQuarter => EPlusInterval UMonth 3 (rewrite n) d'         (* dateadd_quarter (fix): 3 n months *)
                   | _ => EPlusInterval u 1 (rewrite n) d'
                   end in
       if is_cast_date d && date_unit u then ECastDate body else body              (* dateadd_date_cast *)
@@ -320,7 +321,6 @@ Fixpoint supported (en : env) (e : expr) : bool :=
       end
   | EDateAdd u n d =>
       supported en n && supported en d && negb (is_text_lit d) &&
-      match u with UQuarter => false | _ => true end &&
       match sem_sf en d with
       | Ok (VDate _) => (is_cast_date d && date_unit u) || match u with UHour => true | _ => false end
       | _ => true
